@@ -14,7 +14,7 @@ Import ListNotations.
       z                                                     *)
 Definition ex_prog (ci ct ca cb ce bl inner2 : nat) (nl1 : option (nat * nat)) (inl : bool) : lprog :=
   let body (b : lblock) := if inl then BInline b else BNext bl b in
-  [(bl, 0, LLetFn 1 2 []
+  [(bl, 0, RLetL (LLetFn 1 2 []
      (BNext bl
        (LB ci (LLet 3 nl1 (LT (LApp (LA 4) (ACons inner2 (LA 5) ANil))))
         (LCons bl ci
@@ -32,7 +32,7 @@ Definition ex_prog (ci ct ca cb ce bl inner2 : nat) (nl1 : option (nat * nat)) (
              (SCons (if inl then ci else 0) 25 (body (LB cb (LExpr (LT (LApp (LS 26) ANil))) LNil)) bl
              (SCons (ci + 1) 27 (BInline (LB (cb + 9) (LExpr (LT (LIf ((28, []), []) (TOne ((29, []), []) (R1Else ((30, []), [(2, (31, []))])))))) LNil)) 0
              (SLast ci (Some 32) (BNext 0 (LB cb (LExpr (LT (LApp (LA 33) ANil))) LNil))))))))
-        (LCons 0 (ci + (if inl then 0 else 1)) (LExpr (LT (LApp (LA 18) ANil))) LNil)))))))].
+        (LCons 0 (ci + (if inl then 0 else 1)) (LExpr (LT (LApp (LA 18) ANil))) LNil))))))))].
 
 Definition ex_a := ex_prog 2 4 4 6 2 0 0 None true.
 Definition ex_b := ex_prog 7 20 23 31 8 3 55 (Some (2, 1)) false.
@@ -82,7 +82,7 @@ Proof. vm_compute. split; [eexists; repeat split|split; [eexists; repeat split|r
 (** the same if in three decorated layouts: multi-line; on one line; then-bodies on the if/elif lines with
     elif and else on later lines *)
 Definition ex_if (tl : liftail) : lprog :=
-  [(0, 0, LLetFn 1 2 [] (BNext 0 (LB 2 (LExpr (LT (LIf ((3, []), []) tl))) LNil)))].
+  [(0, 0, RLetL (LLetFn 1 2 [] (BNext 0 (LB 2 (LExpr (LT (LIf ((3, []), []) tl))) LNil))))].
 Definition one (a : nat) : lblock := LB 4 (LExpr (LT (LApp (LA a) ANil))) LNil.
 Definition ex_if_multi := ex_if (TMulti 0 (one 4) (IElif 0 2 ((5, []), []) (TMulti 1 (one 6) (IElse 0 0 (BNext 0 (one 7)))))).
 Definition ex_if_one_line := ex_if (TOne ((4, []), []) (R1Elif ((5, []), []) (TOne ((6, []), []) (R1Else ((7, []), []))))).
@@ -106,3 +106,41 @@ Definition ded_bad : list ptok :=     (* the line of b moved to column 2 *)
 Example dedent_example :
   (exists t, parse_blocks 200 ded_ok = Ok t) /\ parse_blocks 200 ded_bad = Reject.
 Proof. vm_compute. split; [eexists; reflexivity|reflexivity]. Qed.
+
+(** groups: a parenthesised if as an argument with ')' on its own line, a tuple whose last element is a
+    multi-line if, a slice and a record literal with a multi-line value followed by ';' / '}' on a later
+    line, a record field broken after its name and after '=', a destructuring let, () *)
+Definition ex_groups (multi : bool) (inner2 : nat) : lprog :=
+  let v (a : nat) : lexpr := LT (LApp (LA a) ANil) in
+  let iff (c0 : nat) : lexpr :=
+    if multi then LT (LIf ((3, []), []) (TMulti 1 (LB (c0 + 4) (LExpr (v 4)) LNil) (IElse 0 c0 (BNext 0 (LB (c0 + 2) (LExpr (v 5)) LNil)))))
+    else LT (LIf ((3, []), []) (TOne ((4, []), []) (R1Else ((5, []), [])))) in
+  let cl (c0 : nat) := if multi then Some (1, c0) else None in
+  [(0, 0, RLetL (LLetFn 1 2 []
+     (BNext 0
+       (LB 2 (LLetD 6 7 [8] (if multi then Some (0, 9) else None)
+                 (LT (LApp (LGroup GPar None (v 9) (QCons None None inner2 (v 10) (QCons None None 12 (iff 12) QNil)) (cl 3)) ANil)))
+       (LCons 0 2 (LLet 11 None (LT (LApp (LA 12) (ACons inner2 (LGroup GPar None (iff 14) QNil (cl 0)) (ACons inner2 LUnit ANil)))))
+       (LCons 0 2 (LLet 13 None (LT (LApp (LGroup GSlice None (v 14) (QCons None None inner2 (iff 20) QNil) (cl 5)) ANil)))
+       (LCons 0 2 (LExpr (LT (LApp (LGroup GRec (Some (15, (if multi then Some (0, 1) else None), (if multi then Some (2, 30) else None)))
+                                      (iff 30)
+                                      (QCons (cl 4) (Some (16, None, None)) inner2 (v 17) QNil) None) ANil))) LNil)))))))].
+Example groups_two_layouts :
+  wf_prog None (ex_groups true 7) /\ wf_prog None (ex_groups false 40) /\
+  er_prog (ex_groups true 7) = er_prog (ex_groups false 40) /\
+  parse_blocks 400 (r_prog 0 (ex_groups true 7)) = Ok (er_prog (ex_groups true 7)) /\
+  parse_blocks 400 (r_prog 50 (ex_groups false 40)) = Ok (er_prog (ex_groups true 7)).
+Proof. vm_compute. repeat split; try lia. Qed.
+
+(** root items: package / import lines, a union whose cases stand at arbitrary columns, a package_info block *)
+Definition ex_roots (a b c0 : nat) : lprog :=
+  [(0, 0, RLineL 0 [1]); (a, 0, RLineL 1 [2]);
+   (a, 0, RUnionL 3 a b [4; 5; 6] [(a, 0, [7]); (0, b + 5, [8; 5; 9])]);
+   (1, 0, RInfoL 10 a c0 [11; 12; 13] [(a, c0 + b, [14; 12; 15]); (0, c0, [16; 12; 17])]);
+   (0, 0, RLetL (LLet 18 None (LT (LApp (LA 19) ANil))))].
+Example roots_two_layouts :
+  wf_prog None (ex_roots 0 2 2) /\ wf_prog None (ex_roots 3 9 7) /\
+  er_prog (ex_roots 0 2 2) = er_prog (ex_roots 3 9 7) /\
+  parse_blocks 400 (r_prog 0 (ex_roots 0 2 2)) = Ok (er_prog (ex_roots 0 2 2)) /\
+  parse_blocks 400 (r_prog 33 (ex_roots 3 9 7)) = Ok (er_prog (ex_roots 0 2 2)).
+Proof. vm_compute. repeat split; try lia; repeat constructor; try lia. Qed.
